@@ -25,6 +25,11 @@ fn session_sub_key(key: &[u8], salt: &[u8]) -> [u8; blake3::OUT_LEN] {
 }
 
 pub fn now() -> Result<u64, SystemTimeError> {
+    #[cfg(octo_verif)]
+    if crate::verif::clock_offset() != 0 {
+        let real = SystemTime::now().duration_since(UNIX_EPOCH)?.as_secs() as i64;
+        return Ok((real + crate::verif::clock_offset()) as u64);
+    }
     Ok(SystemTime::now().duration_since(UNIX_EPOCH)?.as_secs())
 }
 
